@@ -75,6 +75,13 @@ def run_one(sid, tier, extra_props=()):
                 out['checks'][prop]['tail'] = proc.stdout[-1500:] + proc.stderr[-500:]
         main = out['checks'][meta['property']]
         out['detected'] = main['exit'] == 1 and main['violation_lines'] > 0
+        # a change may (also, or only) break a clause that another property's check owns:
+        # meta.json lists those under also_breaks; detected_by names every check that raised
+        out['detected_by'] = [p for p in props if out['checks'][p]['exit'] == 1
+                              and out['checks'][p]['violation_lines'] > 0]
+        if not out['detected'] and any(p in meta.get('also_breaks', [])
+                                       for p in out['detected_by']):
+            out['detected'] = True
         return out
     finally:
         shutil.rmtree(work, ignore_errors=True)
